@@ -90,6 +90,19 @@ def gen_xslt():
     cond = r"if\s*\(\s*hasParams\(\)\s*==\s*true\s*\|\|\s*hasVariables\(\)\s*==\s*true\s*\)\s*\{"
     facts["children_frame_iff_has_variables"] = bool(re.search(cond + r"[^}]*pushElementFrame\s*\(\s*this\s*\)", b1)) and \
         bool(re.search(cond + r"\s*executionContext\.popElementFrame\s*\(\s*\)", b2))
+    # ---- the iterative loop (XsltLoopDefs.v) ----
+    b = body_of(te, r"ElemTemplateElement::execute\s*\(\s*StylesheetExecutionContext\s*&\s*executionContext\s*\)\s*const\s*\{", "ElemTemplateElement::execute (iterative)")
+    sq = re.sub(r"\s+", "", b)
+    facts["execute_loop_as_modelled"] = all(x in sq for x in (
+        "invoker=getParentNodeElem();", "while(currentElement!=0){nextElement=currentElement->startElement(executionContext);",
+        "while(0==nextElement){currentElement->endElement(executionContext);",
+        "if(currentElement->getInvoker(executionContext)==invoker){nextElement=0;break;}",
+        "nextElement=localInvoker->getNextChildElemToExecute(executionContext,currentElement);",
+        "if(0==nextElement){currentElement=currentElement->getInvoker(executionContext);}",
+        "currentElement=nextElement;"))
+    b = body_of(te, r"ElemTemplateElement::getInvoker\s*\([^)]*\)\s*const\s*\{", "ElemTemplateElement::getInvoker")
+    b2 = body_of(te, r"ElemTemplateElement::getNextChildElemToExecute\s*\([^)]*\)\s*const\s*\{", "ElemTemplateElement::getNextChildElemToExecute")
+    facts["default_invoker_is_parent_next_is_sibling"] = "getParentNodeElem()" in b and "getNextSiblingElem()" in b2
     fe = srcfacts.strip_comments(srcfacts.read("XSLT/ElemForEach.cpp"))
     b = body_of(fe, r"ElemForEach::getNextChildElemToExecute\s*\([^)]*\)\s*const\s*\{", "ElemForEach::getNextChildElemToExecute")
     facts["foreach_renews_frame_per_node"] = bool(re.search(r"endExecuteChildren\s*\(\s*executionContext\s*\)\s*;\s*return\s+beginExecuteChildren\s*\(\s*executionContext\s*\)", b))
